@@ -21,6 +21,8 @@ BY_PROPERTY = {
              'Mahotas.pybody_morph_cerode_eq_model', 'Mahotas.pybody_morph_cdilate_eq_model',
              'Mahotas.pybody_morph_tophat_open_eq_model', 'Mahotas.pybody_morph_tophat_close_eq_model',
              'Mahotas.pybody_c02Prims_consistent']),
+    'C16': ('Mahotas.Proofs.PyBodyTiesC16', ['Mahotas.pybody_thresholding_gbernsen_eq_model',
+                                             'Mahotas.pybody_thresholding_otsu_eq_model']),
     'C06': ('Mahotas.Proofs.PyBodyTiesC06', ['Mahotas.pybody_convolve_gaussian_filter1d_eq_model']),
 }
 LEAN_TARGETS = [m for m, _ in BY_PROPERTY.values()]
